@@ -128,6 +128,13 @@ func c03Crash(r *rng, id string) {
 	c := defaultSimCfg()
 	c.indirect = []int{0, 1, 3}[r.intn(3)]
 	c.tcpPings = r.chance(1, 2)
+	// one run in six: no indirect checks and a probe timeout above the probe interval (somebody lowered the
+	// interval and kept the default timeout): the round ends at the interval, the member is suspected all the same
+	tightProbe := r.chance(1, 6)
+	if tightProbe {
+		c.indirect = 0
+		c.probeTimeout = c.probeInterval + 100*time.Millisecond
+	}
 	c.pushPull = []time.Duration{5 * time.Second, 15 * time.Second, 30 * time.Second}[r.intn(3)]
 	enc := r.chance(1, 6)
 	if enc {
